@@ -27,7 +27,7 @@ LEVEL = META['level']
 RULE = ('a case = one faulted exchange (setting, fault kind, offset/frame) judged; distinct by that tuple; non-trivial = the fault falls after the Register reply, i.e. while operations are outstanding')
 ASSUMPTIONS = ['values are unique per element, so a result belonging to another request differs from the expected one', 'proxy is used as `with via: list(via.read(...))`, the documented way to have the gateway discarded on errors']
 REQUIRED = ['exchanges:fault-free', 'faults:s2c-cut', 'faults:c2s-cut', 'faults:reply-withheld', 'cut:on-frame-boundary', 'cut:inside-frame', 'setting:synchronous', 'setting:pipelined',
-            'setting:bundled', 'outcome:exception', 'outcome:complete', 'monitor:pairing', 'monitor:delivered-frames-bound', 'monitor:silent-short', 'proxy:faults', 'proxy:recovered', 'proxy:reply-lost-on-reused-connection', 'poll:failures', 'poll:recovered']
+            'setting:bundled', 'outcome:exception', 'outcome:complete', 'monitor:pairing', 'monitor:delivered-frames-bound', 'monitor:silent-short', 'proxy:faults', 'proxy:recovered', 'proxy:reply-lost-on-reused-connection', 'setting:single-operation-last-bundle', 'poll:failures', 'poll:recovered']
 TIMEOUT = {'quick': 300, 'thorough': 2400}
 SOFT = {'quick': 40, 'thorough': 900}
 
@@ -117,9 +117,29 @@ def exchange(ctx, relay, ops_text, depth, multiple, expected, fault, wit):
     return results, exc, rec
 
 
-def run_setting(ctx, sim, rng, depth, multiple, quick):
+def single_op_tail(ctx, sim, rng, depth, multiple):
+    """-> a number of operations for which, at this bundle size limit, the last bundle holds exactly one operation behind at least two
+    fuller ones (the shape in which per-bundle bookkeeping of the last, overflowing operation can go wrong), or None"""
     from vlib import relay as relaymod, refcodec as rc
-    n = rng.choice([6, 8, 12])
+    for n in range(5, 14):
+        relay = relaymod.Relay(sim.address)
+        try:
+            ops_text = ['F[%d]' % i for i in range(n)]
+            res, exc, rec = exchange(ctx, relay, ops_text, depth, multiple, None, None, {'probe': n})
+            if rec is None or exc is not None:
+                continue
+            frames, _ = rc.split_frames(rec['delivered'])
+            per = [covered_ops(frames[0] + f)[0] for f in frames[1:]]
+            if len(per) >= 3 and per[-1] == 1 and per[-2] > 1:
+                return n
+        finally:
+            relay.close()
+    return None
+
+
+def run_setting(ctx, sim, rng, depth, multiple, quick, n=None):
+    from vlib import relay as relaymod, refcodec as rc
+    n = n or rng.choice([6, 8, 12])
     idxs = rng.sample(range(40), n)
     ops_text = ['F[%d]' % i for i in idxs]
     wit = {'operations': ops_text, 'depth': depth, 'multiple': multiple}
@@ -392,6 +412,13 @@ def run(ctx):
         proxy_part(ctx, sim, rng, 6 if quick else 60)
         poll_part(ctx, sim, rng, 5 if quick else 60)
         settings = [(0, 0), (1, 0), (3, 0), (0, 200), (3, 200), (1, 4000)]
+        # a bundled, pipelined exchange whose last bundle holds a single operation
+        for d_, m_ in ((2, 170), (1, 120)):
+            n_ = single_op_tail(ctx, sim, rng, d_, m_)
+            if n_:
+                ctx.count('setting:single-operation-last-bundle')
+                run_setting(ctx, sim, rng, d_, m_, quick, n=n_)
+                break
         k = 0
         while not ctx.expired():
             d, m = settings[k % len(settings)]
